@@ -469,33 +469,8 @@ def check(ctx):
         okk = okk and len(att) == 1 and canon(gl, kids(att[0])[0], inline=False).replace(' ', '') == 'forbidden_squares(pos)'
         ctx.ob('C01.M2.king-moves', 'generate_legal_moves<%s>' % col, okk,
                'the king never steps onto a square attacked by the opponent (forbidden_squares) or occupied by an own piece', site=gl.loc())
-    gpm = [f for f in p.fns('engine::generate_piece_moves')]
-    okm = len(gpm) == 4
-    for f in gpm:
-        ctx.analysed(f)
-        ands = [n for n in f.all_nodes() if n['k'] == 'CompoundAssignOperator' and n.get('op') == '&=' and canon(f, kids(n)[1], inline=False) == 'target']
-        ems = emissions(f)
-        okm = okm and len(ands) == 1 and len(ems) == 1 and f.cfg.node_dominates(ands[0], ems[0][0]) and \
-            canon(f, ems[0][2][0], inline=False) == 'from' and canon(f, ems[0][2][1], inline=False) == 'sq'
-        kind = short(f.targs)
-        src = [canon(f, kids(n)[0], inline=False).replace(' ', '') for n in f.all_nodes() if n['k'] == 'VarDecl' and n.get('name') == 'bb']
-        if kind == 'KNIGHT':
-            okm = okm and src and 'KNIGHT_MASK[from]' in src[0]
-        else:
-            okm = okm and src and 'slider_attack(from,pos.pieces())' in src[0] and \
-                any(c.get('targs') == 'engine::' + kind for x in f.all_nodes() for c in [x.get('callee')] if c and c['n'] == 'engine::slider_attack')
-    ctx.ob('C01.M2.piece-moves', 'generate_piece_moves', okm,
-           'piece moves are the attack set of that kind from the square, intersected with the target mask', site=gpm[0].loc() if gpm else '')
-    for col in ('WHITE', 'BLACK'):
-        f = gens[('generate_pinned_piece_moves', col)]
-        bb = [n for n in f.all_nodes() if n['k'] == 'VarDecl' and n.get('name') == 'bb']
-        ok = len(bb) == 1 and canon(f, kids(bb[0])[0], inline=False).replace(' ', '') == '(attack_in_line(from,ray,pos.pieces())&target)'
-        gf = [canon(f, c, inline=False).replace(' ', '') for c, t in guard_facts(f, f.parent(bb[0])) if not t] if bb else []
-        ok = ok and '!(allowed_ray(piece,ray))' in ' '.join('!(%s)' % g if not g.startswith('!') else g for g in gf) or \
-            (ok and any('allowed_ray(piece,ray)' in g for g in [canon(f, c, inline=False).replace(' ', '') for c, t in guard_facts(f, f.parent(bb[0]))]))
-        kn = [n for n in f.all_nodes() if n['k'] == 'IfStmt' and canon(f, kids(n)[0], inline=False).replace(' ', '') == '(piece==KNIGHT)']
-        ctx.ob('C01.M2.pinned-pieces', 'generate_pinned_piece_moves<%s>' % col, bool(ok) and len(kn) == 1,
-               'a pinned slider moves only along its pin line (if it can move that way at all), a pinned knight not at all', site=f.loc())
+    # generate_piece_moves<K> and generate_pinned_piece_moves<side>: decided by value / per piece kind in props/C01sem.py
+    # (M8.piece-moves, M8.pinned-dispatch)
 
     # ---- M3 castling ------------------------------------------------------------------------------------------------------
     icp = p.fn('engine::(anonymous namespace)::init_castling_paths_bitboards')
@@ -643,48 +618,7 @@ def check(ctx):
     # ---- M5 attacker cover ---------------------------------------------------------------------------------------------------
     pk = p.enum('engine::PieceKind')
     for col in ('WHITE', 'BLACK'):
-        f = gens[('checkers', col)]
-        terms = []
-        for n in f.all_nodes():
-            if n['k'] == 'CompoundAssignOperator' and n.get('op') == '|=':
-                terms.append(canon(f, kids(n)[1], inline=False).replace(' ', ''))
-        okc = len(terms) == 4 and 'position.pieces(!(side),PAWN)' in terms[0] and 'KNIGHT_MASK[king_sq]&position.pieces(!(side),KNIGHT)' in terms[1] and \
-            'slider_attack(king_sq,position.pieces())&(position.pieces(!(side),BISHOP)|position.pieces(!(side),QUEEN))' in terms[2] and \
-            'slider_attack(king_sq,position.pieces())&(position.pieces(!(side),ROOK)|position.pieces(!(side),QUEEN))' in terms[3]
-        sl = [short(c['targs']) for x in f.all_nodes() for c in [x.get('callee')] if c and c['n'] == 'engine::slider_attack']
-        ctx.ob('C01.M5.checkers', 'checkers<%s>' % col, okc and sl == ['BISHOP', 'ROOK'],
-               'checkers = enemy pawns, knights, bishops/queens and rooks/queens attacking the king on the real occupancy', site=f.loc())
-        g = gens[('forbidden_squares', col)]
-        kinds = set()
-        for n in g.all_nodes():
-            if n['k'] == 'VarDecl' and n.get('name', '').startswith('OPPONENT_') and kids(n):
-                e = strip_casts(kids(n)[0])
-                if e['k'] == 'ConditionalOperator':
-                    kinds.add(n['name'][9:])
-        blk = [n for n in g.all_nodes() if n['k'] == 'VarDecl' and n.get('name') == 'blockers']
-        okx = len(blk) == 1 and canon(g, kids(blk[0])[0], inline=False).replace(' ', '') == '(pos.pieces()^square_bb(king_sq))'
-        sls = [(short(x['callee']['targs']), canon(g, kids(x)[2], inline=False)) for x in g.all_nodes() if x.get('callee', {}).get('n') == 'engine::slider_attack']
-        oks = sorted(sls) == [('BISHOP', 'blockers'), ('QUEEN', 'blockers'), ('ROOK', 'blockers')]
-        pawn = any('shift(pawns)' in canon(g, kids(n)[1], inline=False).replace(' ', '') for n in g.all_nodes()
-                   if n['k'] == 'CompoundAssignOperator' and n.get('op') == '|=')
-        king = any(canon(g, kids(n)[1], inline=False).replace(' ', '').startswith('KING_MASK[pos.piece_position(OPPONENT_KING') for n in g.all_nodes()
-                   if n['k'] == 'CompoundAssignOperator' and n.get('op') == '|=')
-        knight = any('KNIGHT_MASK[pos.piece_position(OPPONENT_KNIGHT' in canon(g, kids(n)[1], inline=False).replace(' ', '') for n in g.all_nodes()
-                     if n['k'] == 'CompoundAssignOperator' and n.get('op') == '|=')
-        ctx.ob('C01.M5.forbidden', 'forbidden_squares<%s>' % col,
-               kinds == {'KNIGHT', 'BISHOP', 'ROOK', 'QUEEN', 'KING'} and okx and oks and pawn and king and knight,
-               'squares forbidden to the king: attacked by enemy pawns, knights, bishops, rooks, queens and king, sliders seeing through the king',
-               site=g.loc())
-        # the pawn directions of forbidden_squares are those of the opponent's pawns
-        dvals = sorted(const_of(strip_casts(kids(n)[0])) for n in g.all_nodes() if n['k'] == 'VarDecl' and n.get('name') in ('UPLEFT', 'UPRIGHT') and kids(n))
-        want_d = sorted([-7, -9] if col == 'WHITE' else [7, 9])
-        ctx.ob('C01.M5.forbidden-pawn-dirs', 'forbidden_squares<%s>' % col, dvals == want_d,
-               'enemy pawn attacks point toward the side being protected (%s)' % dvals, site=g.loc())
-        # loops cover all list entries
-        loops = [canon(g, n['ch'][2], inline=False).replace(' ', '') for n in g.all_nodes() if n['k'] == 'ForStmt']
-        ctx.ob('C01.M5.forbidden-lists', 'forbidden_squares<%s>' % col,
-               sorted(loops) == sorted('(i<pos.number_of_pieces(OPPONENT_%s))' % k for k in ('KNIGHT', 'BISHOP', 'ROOK', 'QUEEN')),
-               'every enemy knight, bishop, rook and queen in the piece lists is considered', site=g.loc())
+        # checkers<side> and forbidden_squares<side>: decided by value in props/C01sem.py (M8.checkers, M8.forbidden)
         # pins: eight rays, pinned piece of own colour, attacker a slider of the right kind
         gp = gens[('generate_pins', col)]
         rays = sorted(x['callee']['targs'].split(',')[1].strip() for x in gp.all_nodes() if x.get('callee', {}).get('n') == 'engine::generate_pin_in_ray')
